@@ -300,6 +300,21 @@ class Extract(Function):
     def get_special_params_sql(self, ctx: SqlContext) -> str:
         return "FROM {field}".format(field=self.field.get_sql(ctx))
 
+    @builder
+    def replace_table(self, current_table, new_table) -> "Self":  # type:ignore[return]
+        """
+        Replaces all occurrences of the specified table with the new table. Useful when reusing fields across queries.
+
+        :param current_table:
+            The table to be replaced.
+        :param new_table:
+            The table to replace with.
+        :return:
+            A copy of the function with the tables replaced.
+        """
+        self.args = [param.replace_table(current_table, new_table) for param in self.args]
+        self.field = self.field.replace_table(current_table, new_table)
+
 
 # Null Functions
 class IsNull(Function):
